@@ -271,15 +271,45 @@ pub open spec fn dyn_pass<V>(f: Option<DynPred<V>>) -> spec_fn(V) -> bool {
     |v: V| match f { None => true, Some(d) => (d.p@)(v) }
 }
 /// the page: the first `limit` of the values that pass the filter
-pub open spec fn page_of<K, V>(items: Seq<StdResult<(K, V)>>, f: Option<DynPred<V>>, limit: Option<u32>) -> Seq<V> {
-    let fv = item_vals(items).filter(dyn_pass(f));
+pub open spec fn page_of_p<K, V>(items: Seq<StdResult<(K, V)>>, p: spec_fn(V) -> bool, limit: Option<u32>) -> Seq<V> {
+    let fv = item_vals(items).filter(p);
     let n: int = match limit { Some(l) => l as int, None => u32::MAX as int };
     if fv.len() <= n { fv } else { fv.take(n) }
+}
+pub open spec fn page_of<K, V>(items: Seq<StdResult<(K, V)>>, f: Option<DynPred<V>>, limit: Option<u32>) -> Seq<V> {
+    page_of_p(items, dyn_pass(f), limit)
 }
 pub open spec fn page_min<'a, K: Bounder<'a>>(start_after: Option<K>, order: Order) -> Option<Bound<'a, K>> {
     match order { Order::Ascending => match start_after { Some(k) => Some(Bound::Exclusive((k, core::marker::PhantomData))), None => None }, Order::Descending => None }
 }
 pub open spec fn page_max<'a, K: Bounder<'a>>(start_after: Option<K>, order: Order) -> Option<Bound<'a, K>> {
     match order { Order::Descending => match start_after { Some(k) => Some(Bound::Exclusive((k, core::marker::PhantomData))), None => None }, Order::Ascending => None }
+}
+} // verus!
+
+verus! {
+// ------------------------------------------------------------------ query responses (C17)
+pub use crate::msg::{BatchResponse, BatchesResponse, ConfigResponse, StateResponse, IBCQueueResponse, IBCReplyQueueResponse};
+pub open spec fn status_str(s: BatchStatus) -> Seq<char> {
+    match s { BatchStatus::Pending => "pending"@, BatchStatus::Submitted => "submitted"@, BatchStatus::Received => "received"@ }
+}
+pub open spec fn is_batch_resp(r: BatchResponse, b: Batch) -> bool {
+    &&& r.id == b.id
+    &&& r.batch_total_liquid_stake == b.batch_total_liquid_stake
+    &&& r.expected_native_unstaked == (match b.expected_native_unstaked { Some(x) => x, None => Uint128(0) })
+    &&& r.received_native_unstaked == (match b.received_native_unstaked { Some(x) => x, None => Uint128(0) })
+    &&& r.next_batch_action_time == Timestamp(((match b.next_batch_action_time { Some(t) => t, None => 0u64 }) * 1_000_000_000) as u64)
+    &&& r.status@ == status_str(b.status)
+    &&& r.unstake_request_count == (match b.unstake_requests_count { Some(c) => c, None => 0u64 })
+}
+pub open spec fn are_batch_resps(rs: Seq<BatchResponse>, bs: Seq<Batch>) -> bool {
+    rs.len() == bs.len() && forall|i: int| 0 <= i < bs.len() ==> is_batch_resp(#[trigger] rs[i], bs[i])
+}
+pub open spec fn status_pred(status: Option<BatchStatus>) -> spec_fn(Batch) -> bool {
+    |b: Batch| match status { None => true, Some(s) => b.status == s }
+}
+/// DOM (C16): batch deadlines are block times in seconds (they were computed from one)
+pub open spec fn batch_time_ok(b: Batch) -> bool {
+    b.next_batch_action_time is Some ==> b.next_batch_action_time->Some_0 * 1_000_000_000 <= u64::MAX
 }
 } // verus!
